@@ -65,7 +65,7 @@ func intArray4(a [4]int) eval.Value {
 }
 
 func C08(c *core.Ctx) {
-	c.Explanation("C08: (R2) findUpDownCatchment (with rearrangeCatchment and balance) and findUpDownCatchmentPushDistance (with refactorPushCatchment) are interpreted on every bounded target stream with the pair classifier replaced by a table look-up, for each bin separately (which also cross-checks the four hand-copied bin blocks) and for mixed streams; every bin must be the prefix of its candidates ordered by distance, then fewer ambiguities, then file order, within the bin's distance limit, cut to the size balance() allots; (R3) balance() is interpreted exhaustively over requested/available sizes in 0..2 (quick) or 0..3 (thorough) against the specified allocation (min(requested, available) with --no-fill; otherwise even make-up until total or supply is exhausted); (R1) whichWay is interpreted on every pair of short sequences over {A,C,G,N} (converted by the interpreted getLines) against the specified bin and distance; (R4) checkArgs option normalisation over a grid of option values; the two writers on a symbolic result for column order and bin naming.")
+	c.Explanation("C08: (R2) findUpDownCatchment (with rearrangeCatchment and balance) and findUpDownCatchmentPushDistance (with refactorPushCatchment) are interpreted on every bounded target stream with the pair classifier replaced by a table look-up, for each bin separately (which also cross-checks the four hand-copied bin blocks) and for mixed streams; every bin must be the prefix of its candidates ordered by distance, then fewer ambiguities, then file order, within the bin's distance limit, cut to the size balance() allots; (R3) balance() is interpreted exhaustively over requested/available sizes in 0..2 (quick) or 0..3 (thorough) against the specified allocation (min(requested, available) with --no-fill; otherwise even make-up until total or supply is exhausted); (R1) whichWay is interpreted on every pair of short sequences over {A,C,G,N} (converted by the interpreted getLines) against the specified bin and distance, for the all-A reference and for references whose SNP strings sort neither in positional nor in reverse positional order; the converters keep no state between records; (R4) checkArgs option normalisation over a grid of option values; the two writers on a symbolic result for column order and bin naming.")
 	checkSoftGapReaders(c, "R9", "pkg/updown")
 	c09Inputs(c)                                                             // the records the binning sees are the same for FASTA and CSV input
 	checkArrivalOrderIndependence(c, "R10/reorder", "updown.reorderRecords") // "file order" is the order of the target file, whatever the order the converted records arrive in
@@ -82,6 +82,9 @@ func C08(c *core.Ctx) {
 	c08CheckArgs(c)
 	c08Writers(c)
 	c08SplitInput(c, lineT)
+	if tabs := extractTables(c, newEval(c), "R0w"); tabs.OK {
+		checkWorkersStateless(c, "R11", tabs, "pkg/updown") // a target's ambiguity count and lists are its own, whichever records its converter handled before
+	}
 }
 
 func mkLine(lineT types.Type, id string, idx, amb int64) *eval.StructVal {
@@ -487,11 +490,28 @@ func c08WhichWay(c *core.Ctx, lineT types.Type) {
 	if !tabs.OK {
 		return
 	}
-	L := 2
-	if c.Tier == "thorough" {
-		L = 4
+	// families: the all-A reference (every SNP string sorts as its position does), and references whose SNP strings sort
+	// neither in positional nor in reverse positional order (whichWay looks SNPs up in the lexically sorted copy)
+	type family struct {
+		ref   string
+		alpha string
 	}
-	alpha := []byte("ACGN")
+	fams := []family{{"AA", "ACGN"}, {"GTA", "ACN"}}
+	if c.Tier == "thorough" {
+		fams = []family{{"AAAA", "ACGN"}, {"GTA", "ACGN"}, {"GTAC", "ACN"}}
+	}
+	var bad []string
+	n := 0
+	for _, fam := range fams {
+		c08WhichWayFamily(c, tabs, ww, gl, recT, fam.ref, fam.alpha, &bad, &n)
+	}
+	c.Count("sequence_pairs_evaluated", n)
+	c.Ob("R1/whichWay/bin-and-distance", len(bad) == 0, ww.Pos(), "%s", first(bad, 5))
+}
+
+func c08WhichWayFamily(c *core.Ctx, tabs *Tables, ww, gl *types.Func, recT types.Type, ref, alphabet string, badp *[]string, np *int) {
+	L := len(ref)
+	alpha := []byte(alphabet)
 	var seqs []string
 	var gen func(cur string)
 	gen = func(cur string) {
@@ -504,7 +524,6 @@ func c08WhichWay(c *core.Ctx, lineT types.Type) {
 		}
 	}
 	gen("")
-	ref := strings.Repeat("A", L)
 	enc := func(s string) eval.Value {
 		vs := make([]eval.Value, len(s))
 		for i := 0; i < len(s); i++ {
@@ -527,8 +546,8 @@ func c08WhichWay(c *core.Ctx, lineT types.Type) {
 		}
 		lines[s] = out.Sent[0].(*eval.StructVal)
 	}
-	var bad []string
-	n := 0
+	bad, n := *badp, *np
+	defer func() { *badp, *np = bad, n }()
 	for _, thresh := range []float64{1.0, 0.4} {
 		for _, q := range seqs {
 			for _, t := range seqs {
@@ -541,7 +560,7 @@ func c08WhichWay(c *core.Ctx, lineT types.Type) {
 				tup := v.(eval.Tuple)
 				gdir, _ := linConst(tup[0])
 				gdist, _ := linConst(tup[1])
-				// specification from the sequences themselves (reference all 'A')
+				// specification from the sequences themselves
 				qOnly, tOnly, amb, shared, dist := 0, 0, 0, 0, 0
 				for i := 0; i < L; i++ {
 					qs, ts := q[i], t[i]
@@ -593,8 +612,6 @@ func c08WhichWay(c *core.Ctx, lineT types.Type) {
 			}
 		}
 	}
-	c.Count("sequence_pairs_evaluated", n)
-	c.Ob("R1/whichWay/bin-and-distance", len(bad) == 0, ww.Pos(), "%s", first(bad, 5))
 }
 
 // ---- checkArgs
